@@ -122,7 +122,12 @@ def gen_ctl(rng, n):
     return out
 
 
-def solve_oracle(spec, ops, step_ticks, cb_ticks, obs, twin, min0, ctl=None):
+def gen_nans(rng, n):
+    """what callback invocation j assigns to optimizer.nanstop: None / True / False"""
+    return [None if rng.random() < 0.5 else bool(rng.integers(2)) for _ in range(n + 1)]
+
+
+def solve_oracle(spec, ops, step_ticks, cb_ticks, obs, twin, min0, ctl=None, nans=None):
     """direct statement of C15 on the observations of the real run.  Returns a dict (what failed) or None.
     Nothing is asserted after the first NaN stop (the property does not speak about the state afterwards).
 
@@ -157,11 +162,15 @@ def solve_oracle(spec, ops, step_ticks, cb_ticks, obs, twin, min0, ctl=None):
         elif o["op"] == "solve":
             m = max(int(o["maxiter"]), 0)
             trip = None
-            if nanstop:
-                for q in range(m):
-                    if nonfinite(k + q + 1):
-                        trip = q
-                        break
+            flag = nanstop  # the attribute as the test of iteration q finds it: callbacks of this call may assign it
+            for q in range(m):
+                if flag and nonfinite(k + q + 1):
+                    trip = q
+                    break
+                if o["cb"] and nans is not None and j + q < len(nans) and nans[j + q] is not None:
+                    flag = bool(nans[j + q])
+            if trip is None:
+                nanstop = flag
             raise_q = None
             if o["cb"] and ctl is not None:
                 for q in range(m):
